@@ -352,6 +352,8 @@ class Engine:
                 k = self.reg.lookup_method(ty.name, attr)
                 if k is not None:
                     if getattr(k, "is_property", False):
+                        if not hasattr(k, "requires"):
+                            return k(self, [base], {}, n, st)
                         return self.apply_contract(k, [base], {}, n, st)
                     return ("bound", base, k)
             if ty is TNone:
@@ -527,7 +529,15 @@ class Engine:
     def _oos(self, n, why):
         raise OutOfSubset(n, why)
 
+    def static_key(self, x, n):
+        t = z3.simplify(x.t) if isinstance(x, V) and x.ty is TStr else None
+        if t is None or not z3.is_string_value(t):
+            raise OutOfSubset(n, "dict with statically known string keys indexed by a non-literal key")
+        return t.as_string()
+
     def contains(self, cont, x, n, st):
+        if isinstance(cont, MObj) and cont.cls == "StrKeyDict":
+            return z3.BoolVal(self.static_key(x, n) in cont.attrs)
         if isinstance(cont, tuple):
             return z3.Or(*[self.equal(x, y, n, st) for y in cont]) if cont else z3.BoolVal(False)
         if isinstance(cont, MObj):
@@ -588,6 +598,12 @@ class Engine:
 
     def binop(self, op, a, b, n, st):
         o = BIN_ARITH.get(type(op))
+        for side in (0, 1):
+            x = (a, b)[side]
+            if isinstance(x, V) and isinstance(x.ty, TOpt):
+                self.require(st, "safe.none", n, x.ty.sort().is_some(x.t), "TypeError")
+                x = V(x.ty.t, x.ty.sort().v(x.t))
+                a, b = (x, b) if side == 0 else (a, x)
         if isinstance(a, V) and isinstance(b, V):
             if a.ty in (TInt, TReal) and b.ty in (TInt, TReal):
                 real = a.ty is TReal or b.ty is TReal
@@ -626,7 +642,10 @@ class Engine:
 
                 return stdlib.oset_sub(self, a, b, n, st) if o == "-" else stdlib.oset_or(self, a, b, n, st)
             dunder = {"+": "__add__", "-": "__sub__", "*": "__mul__", "/": "__truediv__", "|": "__or__", "&": "__and__"}.get(o)
+            dunder = dunder or {"**": "__pow__"}.get(o)
             k = self.reg.lookup_method(getattr(a.ty, "name", ""), dunder) if dunder else None
+            if k is not None and not hasattr(k, "requires"):
+                return k(self, [a, b], {}, n, st)
             if k is None and isinstance(a.ty, TSeq) and a.ty.nodup and dunder:
                 k = self.reg.lookup_method("OrderedSet", dunder)
             if k is not None:
@@ -727,6 +746,11 @@ class Engine:
             if not -len(base) <= i < len(base):
                 self.require(st, "safe.index", n, z3.BoolVal(False), "IndexError")
             return base[i]
+        if isinstance(base, MObj) and base.cls == "StrKeyDict":
+            key = self.static_key(idx, n)
+            if key not in base.attrs:
+                self.require(st, "safe.key", n, z3.BoolVal(False), "KeyError")
+            return base.attrs[key]
         if isinstance(base, MObj):
             k = self.reg.lookup_method(base.cls, "__getitem__")
             if k is not None:
@@ -1394,6 +1418,12 @@ class Engine:
         if isinstance(base, tuple) and base and base[0] == "emptydict":
             kt, vt = self.type_of(idx, node), self.type_of(val, node)
             base = self.empty_of(TDict(kt, vt))
+        if isinstance(base, MObj) and base.cls == "StrKeyDict":
+            key = self.static_key(idx, node)
+            if self.c.frame is not None:
+                self.oblige(st, "frame", node, z3.BoolVal(key in self.c.frame or "*" in self.c.frame), f"store to state key {key!r} outside modifies={sorted(self.c.frame)}")
+            base.attrs[key] = val
+            return base
         if isinstance(base, MObj):
             k = self.reg.lookup_method(base.cls, "__setitem__")
             if k is not None:
